@@ -3,7 +3,7 @@
 check("C20", "exploration",
       "TLC enumerates the request shapes of CertNames.tla: node-id list (empty/one/several/duplicates) x byte-length class (the boundaries +-1 at which "
       "any DER header of the otherName changes size, computed by the LenOctets sub-model) x character class x DNS list x IP list x key mode x validity "
-      "window, SAN-threshold requests and foreign-made SANs. Each shape is concretised several times with seeded strings of exactly the prescribed byte "
+      "window, SAN-threshold requests, foreign-made SANs, and a real-time clock family (verifier built, certificate issued later, verified at later ticks). Each shape is concretised several times with seeded strings of exactly the prescribed byte "
       "length and pushed through the real CreateCertReq(WithKey)/GetReqNames/SignCertReq, MakeReq/SignReq on files, x509 parsing, ReceptorNames and "
       "ReceptorVerifyFunc for every candidate id; names, window, chain, key, SAN bytes and sizes are compared with the request and the DER model.",
       "Exploration: the partition, the boundary arithmetic and the oracle come from the TLA+ model; inside a (length, character class) cell strings are "
